@@ -160,7 +160,39 @@ def narrowing_items():
     return items
 
 
+def impl_cmd_then_call(spec):
+    """an interpreter command first, then an expression in the same process"""
+    import io, contextlib
+    import ka.interpret as I
+    cmds, text = spec
+    buf = io.StringIO()
+    for c in cmds:
+        try:
+            with contextlib.redirect_stdout(buf), contextlib.redirect_stderr(buf):
+                I.execute_interpreter_command(c)
+        except C.CaseTimeout:
+            raise
+        except BaseException:
+            pass                # what a command may raise is C06's business
+    o = C.observe(text)
+    return dict(text=text, status=o.get("status"), err=(o.get("err") or "")[:200], value=o.get("value"), escaped=o.get("escaped"))
+
+
 def run(ctx):
+    # asking the interpreter about a name does not register it: the unknown-name errors stay what they are
+    _specs = []
+    for _n in ("lcm", "gcdx", "sine", "frobnicate", "Sqrt", "zz"):
+        for _cmds in (["%%f %s" % _n], ["%%f %s" % _n, "%fs"], ["%%f %s" % _n] * 3, ["%%u %s" % _n, "%%f %s" % _n]):
+            _specs.append((_cmds, "%s(4, 6)" % _n))
+    _fresh = C.run_impl(impl_cmd_then_call, [([], t) for _, t in _specs], ctx["rundir"], limit=20.0)
+    for (_cmds, _t), _o, _f in zip(_specs, C.run_impl(impl_cmd_then_call, _specs, ctx["rundir"], limit=20.0), _fresh):
+        if _o.get("hung") or _f.get("hung"):
+            continue
+        if (_o.get("status"), _o.get("err")) != (_f.get("status"), _f.get("err")) or not (_o.get("err") or "").startswith("Unknown function"):
+            ctx["report"].violation(dict(kind="command-then-call", name=_t.split("(")[0]),
+                                    "C10 fails: after the interpreter commands %s, `%s` is answered with %r; in a fresh process with %r (an unknown function name is rejected as unknown)"
+                                    % (_cmds, _t, (_o.get("err") or "").strip()[:100], (_f.get("err") or "").strip()[:100]),
+                                    dict(text="%s ;; %s" % (" ;; ".join(_cmds), _t), commands=_cmds, input=_t, impl=_o.get("err"), expected=_f.get("err")))
     C.expect_sessions(ctx["report"], ctx["rundir"], "C10",
                       [(["Total(1, 2)", "total(1, 2)"], (lambda o: o.get("status") == 1 and "Unknown function" in (o.get("err") or "")), "an unknown name stays unknown after its capitalised spelling was tried"),
                        (["SQRT(2)", "sqrt(4)"], "I:2", "a known function after its capitalised spelling was tried"),
